@@ -580,7 +580,8 @@ def run_mutants(ctx, core, mutants, benign):
                     fired = bool({f.key() for f in s.findings} - base_keys)
                     why = "no new finding"
                 except AnalysisError as e:
-                    fired = False
+                    # report.finish lets a concrete finding outrank a later analysis error
+                    fired = bool({f.key() for f in s.findings} - base_keys)
                     why = "analysis error instead of a finding: %s" % e
         except LookupError:
             continue
